@@ -30,6 +30,12 @@ func init() {
 		gApply(c)
 		sliceRules(c)
 		nodeLoop(c)
+		// a snapshot is part of the apply stream: it is installed only above commit (hence above the
+		// apply cursor), and commit never falls back below what was delivered
+		c.SkipRules = map[string]bool{"C09.C": true}
+		c09Install(c)
+		c.SkipRules = nil
+		gCommitMono(c)
 	}})
 	register(&PropertyRule{ID: "C19", Explain: "structural conditions of C19 (determinism): all nondeterminism sources, map iterations and globals in code reachable from the API; see DESIGN.md §5 C19", Run: func(c *Check) {
 		c19Determinism(c)
